@@ -25,7 +25,7 @@ func TestVerifC13API(t *testing.T) {
 	defer m.Close()
 	ctx := context.Background()
 	gen := 0
-	n := r.N(400, 40000)
+	n := r.N(400, 16000)
 	r.Cases("api", n, func(i int, id string, rng *vk.Rand) {
 		gen++
 		index := fmt.Sprintf("c13x%d", gen)
